@@ -183,10 +183,13 @@ fn tensor_to_vec<B: burn::prelude::Backend>(t: burn::tensor::Tensor<B, 3>) -> (V
 }
 
 macro_rules! hmc_cfg {
-    ($T:ty, $B:ty, $n:expr, $nc:expr, $nd:expr, $why:expr) => {{
+    ($T:ty, $B:ty, $n:expr, $nc:expr, $nd:expr, $pre:expr, $why:expr) => {{
         let tgt = DiffableGaussian2D::<$T>::new([0.0, 1.0], [[1.5, 0.4], [0.4, 1.0]]);
         let inits: Vec<Vec<$T>> = (0..$n).map(|i| vec![i as $T * 0.3, -(i as $T) * 0.2]).collect();
         let mut a = HMC::<$T, Autodiff<NdArray<$B>>, _>::new(tgt, inits, 0.2, 3).set_seed(9);
+        if $pre {
+            let _ = a.run(3, 2);
+        }
         let mut b = a.clone();
         match a.run_progress($nc, $nd) {
             Err(e) => $why.push(format!("Err: {e}")),
@@ -207,10 +210,13 @@ macro_rules! hmc_cfg {
     }};
 }
 macro_rules! nuts_cfg {
-    ($T:ty, $B:ty, $n:expr, $nc:expr, $nd:expr, $why:expr) => {{
+    ($T:ty, $B:ty, $n:expr, $nc:expr, $nd:expr, $pre:expr, $why:expr) => {{
         let tgt = DiffableGaussian2D::<$T>::new([0.0, 1.0], [[1.5, 0.4], [0.4, 1.0]]);
         let inits: Vec<Vec<$T>> = (0..$n).map(|i| vec![i as $T * 0.3, -(i as $T) * 0.2]).collect();
         let mut a = NUTS::<$T, Autodiff<NdArray<$B>>, _>::new(tgt, inits, 0.8).set_seed(9);
+        if $pre {
+            let _ = a.run(3, 2);
+        }
         let mut b = a.clone();
         match a.run_progress($nc, $nd) {
             Err(e) => $why.push(format!("Err: {e}")),
@@ -250,6 +256,7 @@ pub fn config(args: &[String]) {
     let (nc, nd) = (c["nc"].as_u64().unwrap() as usize, c["nd"].as_u64().unwrap() as usize);
     let kind = c["kind"].as_str().unwrap().to_string();
     let ty = c["ty"].as_str().unwrap().to_string();
+    let pre = c["pre"].as_bool().unwrap_or(false);
     let mut why: Vec<String> = vec![];
     let r = catch(|| {
         let mut why: Vec<String> = vec![];
@@ -259,6 +266,7 @@ pub fn config(args: &[String]) {
                     let tgt = Gaussian2D::<$T> { mean: arr1(&[0.0, 0.5]), cov: arr2(&[[1.0, 0.3], [0.3, 2.0]]) };
                     let inits: Vec<Vec<$T>> = (0..n).map(|i| vec![i as $T * 0.1, 0.0]).collect();
                     let mut a = MetropolisHastings::new(tgt, IsotropicGaussian::<$T>::new(0.8).set_seed(3), inits).seed(5);
+                    if pre { let _ = a.run(3, 2); }
                     let mut b = a.clone();
                     match a.run_progress(nc, nd) {
                         Err(e) => why.push(format!("Err: {e}")),
@@ -273,6 +281,7 @@ pub fn config(args: &[String]) {
             ("MH", "i32") => {
                 let inits: Vec<Vec<i32>> = (0..n).map(|i| vec![i as i32]).collect();
                 let mut a = MetropolisHastings::new(IntTarget, IntProp { k: 7 }, inits).seed(5);
+                if pre { let _ = a.run(3, 2); }
                 let mut b = a.clone();
                 match a.run_progress(nc, nd) {
                     Err(e) => why.push(format!("Err: {e}")),
@@ -287,6 +296,7 @@ pub fn config(args: &[String]) {
                     let inits: Vec<Vec<$T>> = (0..n).map(|i| vec![i as $T, 1 as $T, 2 as $T]).collect();
                     let mut a = GibbsSampler::new(DetCond, inits.clone()).set_seed(1);
                     let mut b = GibbsSampler::new(DetCond, inits).set_seed(1);
+                    if pre { let _ = a.run(3, 2); let _ = b.run(3, 2); }
                     match a.run_progress(nc, nd) {
                         Err(e) => why.push(format!("Err: {e}")),
                         Ok((d, st)) => {
@@ -297,14 +307,14 @@ pub fn config(args: &[String]) {
                 }}; }
                 match ty.as_str() { "f64" => go!(f64), "f32" => go!(f32), _ => go!(i32) }
             }
-            ("HMC", "f32/f32") => hmc_cfg!(f32, f32, n, nc, nd, why),
-            ("HMC", "f64/f64") => hmc_cfg!(f64, f64, n, nc, nd, why),
-            ("HMC", "f32/f64") => hmc_cfg!(f32, f64, n, nc, nd, why),
-            ("HMC", "f64/f32") => hmc_cfg!(f64, f32, n, nc, nd, why),
-            ("NUTS", "f32/f32") => nuts_cfg!(f32, f32, n, nc, nd, why),
-            ("NUTS", "f64/f64") => nuts_cfg!(f64, f64, n, nc, nd, why),
-            ("NUTS", "f32/f64") => nuts_cfg!(f32, f64, n, nc, nd, why),
-            ("NUTS", "f64/f32") => nuts_cfg!(f64, f32, n, nc, nd, why),
+            ("HMC", "f32/f32") => hmc_cfg!(f32, f32, n, nc, nd, pre, why),
+            ("HMC", "f64/f64") => hmc_cfg!(f64, f64, n, nc, nd, pre, why),
+            ("HMC", "f32/f64") => hmc_cfg!(f32, f64, n, nc, nd, pre, why),
+            ("HMC", "f64/f32") => hmc_cfg!(f64, f32, n, nc, nd, pre, why),
+            ("NUTS", "f32/f32") => nuts_cfg!(f32, f32, n, nc, nd, pre, why),
+            ("NUTS", "f64/f64") => nuts_cfg!(f64, f64, n, nc, nd, pre, why),
+            ("NUTS", "f32/f64") => nuts_cfg!(f32, f64, n, nc, nd, pre, why),
+            ("NUTS", "f64/f32") => nuts_cfg!(f64, f32, n, nc, nd, pre, why),
             (k, t) => tool_error(&format!("config {k} {t}")),
         }
         why
